@@ -76,17 +76,19 @@ class TraceFaithful(Harness):
     def inputs_json(self, case, inp, model):
         return dict(b=[ev(model, x.e) for x in inp['b']])
 
-    def run(self, eng, case, inp):
+    def program_and_args(self, eng, case, inp):
         src, spec = self.tmpl(case)
         cp = compiled_program(src, False)
         if cp['end'] != 'ok' or not cp['agrees']:
             raise Unsupported('compilation under mirsym: %s' % cp['end'])
+        return tree_from_json(cp['compiled']), arg_tree(spec, iter(inp['b']))
+
+    def run(self, eng, case, inp):
+        prog, args = self.program_and_args(eng, case, inp)
         eng.env['tls'] = tls(True)
         eng.env['stubs'] = [(re.compile(r'^<(Rc<compiler::sexp::SExp>|compiler::sexp::SExp|Srcloc|BigInt|usize) as ToString>::to_string$'), tagged_text)]
         alloc = Ref(Cell(Struct('Allocator', [])))
         dialect = Ref(Cell(Struct('ChiaDialect', [mkint(0x0102, 'u32')])))
-        prog = tree_from_json(cp['compiled'])
-        args = arg_tree(spec, iter(inp['b']))
         cons = eng.call('run_program::run_program', [alloc, dialect, prog, args, mkint(0, 'u64')])
         rp = eng.call('compiler::clvm::convert_from_clvm_rs', [alloc, rich.loc(), prog]).fields[0]
         ra = eng.call('compiler::clvm::convert_from_clvm_rs', [alloc, rich.loc(), args]).fields[0]
@@ -201,3 +203,122 @@ class TraceFaithful(Harness):
 
     def required_witnesses(self, tier):
         return ['returns', 'has_rows']
+
+
+def operator_headed(lsh):
+    """every list in program position has an atom as its head (a pair there is the known finding F9, recorded under C06)"""
+    if not isinstance(lsh, list):
+        return True
+    if isinstance(lsh[0], list):
+        return False
+    t = lsh[1]
+    while isinstance(t, list):
+        if not operator_headed(t[0]):
+            return False
+        t = t[1]
+    return True
+
+
+class RawTrace(TraceFaithful):
+    """C12 on raw CLVM: every operator-headed program tree of the stated size over {q,a,i,c,f,r,l,x,=,+,-,paths,nil},
+    stepped to the end by the debugger loop on a symbolic environment.  Part `final`: the whole alphabet, final value /
+    failure entry against the consensus evaluator.  Part `rows`: the alphabet without `a` and `i` (whose rows are the
+    known finding F19), every (operator, arguments, value) row as well."""
+    name = 'raw_trace'
+    functions = TraceFaithful.functions
+    assumptions = ['the program is an arbitrary operator-headed tree of <=3 (thorough <=4) leaves plus the proper lists (OP A B C [D]); leaves are nil or one byte of {1..9,16,17}; environment leaves are arbitrary single bytes, except bytes that spell an operator name when the program can apply data (F10, recorded under C06)',
+                   'part `rows` leaves `a` (2) and `i` (3) out of the alphabet: their rows are the known finding F19, exhibited by trace_faithful',
+                   'the text put into the row map is replaced by an opaque string that remembers the value it was made from (as in trace_faithful)']
+    outside = 'larger raw programs; a pair in operator position (F9, C06); operators outside the alphabet; row text; hex input form'
+    classes = {}
+    FOCUS = [['A', ['A', ['A', 'N']]], ['A', ['A', ['A', ['A', 'N']]]], ['A', ['A', ['A', ['A', ['A', 'N']]]]]]
+    ENVS = {'quick': (['L', 'L'],), 'thorough': ('L', ['L', ['L', 'L']])}
+
+    def cases(self, tier):
+        from harness.stepper import prog_shapes, label_leaves
+        import itertools
+        seen = set()
+        out = []
+        for k in ((1, 2, 3) if tier == 'quick' else (1, 2, 3, 4)):
+            for sh in prog_shapes(k):
+                for mask in range(1 << k):
+                    lsh = label_leaves(sh, mask, itertools.count())
+                    if operator_headed(lsh) and repr(lsh) not in seen:
+                        seen.add(repr(lsh))
+                        out.append(lsh)
+        for lsh in out:
+            for env in self.ENVS[tier]:
+                for part in ('final', 'rows'):
+                    yield dict(raw=lsh, env=env, part=part)
+        # proper lists (OP A B [C [D]]): argument-count handling lives there; split by the operator so the shards run in parallel
+        for lsh in (self.FOCUS if tier == 'thorough' else self.FOCUS[:1]):
+            if repr(lsh) not in seen:
+                for part in ('final', 'rows'):
+                    for op0 in self.alphabet(dict(part=part)):
+                        yield dict(raw=lsh, env=self.ENVS[tier][-1], part=part, op0=op0)
+
+    def native_checks(self, case):
+        return []
+
+    def alphabet(self, case):
+        from harness.stepper import ALPHABET
+        return [v for v in ALPHABET if case['part'] == 'final' or v not in (2, 3)]
+
+    def sym_inputs(self, case):
+        from harness.stepper import count_a
+        from harness.codec import count_leaves
+        return dict(atoms=sym_bytes('p', count_a(case['raw'])), env=[sym_bytes('e%d' % i, 1) for i in range(count_leaves(case['env']))])
+
+    def conc_inputs(self, case, j):
+        return dict(atoms=conc_bytes(j['atoms']), env=[conc_bytes(x) for x in j['env']])
+
+    def inputs_json(self, case, inp, model):
+        return dict(atoms=[ev(model, b.e) for b in inp['atoms']], env=[[ev(model, b.e) for b in x] for x in inp['env']])
+
+    def program_and_args(self, eng, case, inp):
+        from harness.stepper import build_prog, CoreEval
+        from harness.codec import build_tree
+        alpha = self.alphabet(case)
+        for b in inp['atoms']:
+            if b.c is None:
+                eng.assume(z3.Or(*[b.e == v for v in alpha]))
+        if case.get('op0') is not None and inp['atoms'][0].c is None:
+            eng.assume(inp['atoms'][0].e == case['op0'])
+        if 2 in alpha:
+            for x in inp['env']:
+                if x[0].c is None:
+                    eng.assume(z3.And(*[x[0].e != c for c in CoreEval.NAME_CHARS]))
+        return build_prog(case['raw'], iter(inp['atoms'])), build_tree(case['env'], iter(inp['env']))
+
+    def obligations(self, eng, case, inp, out):
+        if case['part'] == 'final':
+            out = dict(out, triples=[])
+        return TraceFaithful.obligations(self, eng, case, inp, out)
+
+    def native_inputs(self, case, j):
+        from harness.stepper import prog_json
+        from harness.codec import json_tree
+        return dict(prog=prog_json(case['raw'], iter(j['atoms'])), args=json_tree(case['env'], iter(j['env'])))
+
+    def is_violation(self, case, j, native):
+        if case['part'] == 'final':
+            native = dict(native, false_rows=[])
+        return TraceFaithful.is_violation(self, case, j, native)
+
+    def vectors(self, case, rnd):
+        from harness.stepper import count_a, CoreEval
+        from harness.codec import count_leaves
+        alpha = self.alphabet(case)
+        ok = [0, 1, 2, 0x7f, 0x80, 0xff]
+        vs = [dict(atoms=[rnd.choice(alpha) for _ in range(count_a(case['raw']))], env=[[rnd.choice(ok)] for _ in range(count_leaves(case['env']))])
+              for _ in range(2 if case.get('op0') is None else 1)]
+        if case.get('op0') is not None:
+            for v in vs:
+                v['atoms'][0] = case['op0']
+        return vs
+
+    def witness_classes(self, case, inp, out):
+        return TraceFaithful.witness_classes(self, case, inp, out)
+
+    def required_witnesses(self, tier):
+        return ['returns', 'fails', 'has_rows']
